@@ -377,7 +377,7 @@ func ruleC18Decided(cx *Ctx) {
 						why = "oversized"
 					case strings.HasPrefix(atom, "IsNil(") && v && !strings.Contains(atom, "load("):
 						why = "other cursor nil"
-					case (strings.HasPrefix(atom, "PtrEq(") || strings.HasPrefix(atom, "Equals(") || strings.HasPrefix(atom, "Eq(Key(")) && v && strings.Contains(atom, x):
+					case (strings.HasPrefix(atom, "PtrEq(") || strings.HasPrefix(atom, "Equals(") || strings.HasPrefix(atom, "Eq(Key(")) && v:
 						why = "same entry"
 					}
 				}
